@@ -58,7 +58,7 @@ type Resolver struct {
 
 func (r *Resolver) file(name string) *File {
 	for _, f := range r.P.Files {
-		if strings.TrimSuffix(f.Name, ".frugal") == name {
+		if incName(f) == name {
 			return f
 		}
 	}
@@ -106,7 +106,17 @@ func (r *Resolver) qual(f *File, name string) string {
 	if len(r.P.Files) > 0 && f == r.P.Files[0] {
 		return name
 	}
-	return strings.TrimSuffix(f.Name, ".frugal") + "." + name
+	return incName(f) + "." + name
+}
+
+// incName is the name under which a file is known to the files that include it: its base name
+// without the extension, whatever directories the include path goes through.
+func incName(f *File) string {
+	n := f.Name
+	if i := strings.LastIndex(n, "/"); i >= 0 {
+		n = n[i+1:]
+	}
+	return strings.TrimSuffix(n, ".frugal")
 }
 
 // filesFor returns the files a program-wide name may live in and its bare name.
@@ -370,8 +380,36 @@ func CanonW(w *W) string {
 	return "?"
 }
 
-// LitToV converts an IDL literal into a value of type rt.
-func (r *Resolver) LitToV(rt *RT, l *Lit) *V {
+// constFor finds the constant an identifier names, seen from file f: "K" is a constant of f,
+// "inc.K" one of the included file inc.frugal. The constant's own value is written relative to
+// the file that declares it.
+func (r *Resolver) constFor(f *File, name string) (*Const, *File) {
+	in := f
+	if i := strings.Index(name, "."); i >= 0 {
+		in = r.file(name[:i])
+		name = name[i+1:]
+	}
+	if in == nil {
+		return nil, nil
+	}
+	for _, d := range in.Decls {
+		if d.Const != nil && d.Const.Name == name {
+			return d.Const, in
+		}
+	}
+	return nil, nil
+}
+
+// LitToV converts an IDL literal into a value of type rt (identifiers are looked up from the main file).
+func (r *Resolver) LitToV(rt *RT, l *Lit) *V { return r.LitToVIn(r.P.Files[0], rt, l) }
+
+// LitToVIn converts an IDL literal written in file f into a value of type rt.
+func (r *Resolver) LitToVIn(f *File, rt *RT, l *Lit) *V {
+	if l.Kind == "ident" {
+		if c, cf := r.constFor(f, l.Str); c != nil {
+			return r.LitToVIn(cf, rt, c.Value)
+		}
+	}
 	switch rt.K {
 	case "bool":
 		return &V{K: "bool", B: l.Bool}
@@ -393,13 +431,13 @@ func (r *Resolver) LitToV(rt *RT, l *Lit) *V {
 	case "list", "set":
 		out := &V{K: rt.K, E: []*V{}}
 		for _, e := range l.Elems {
-			out.E = append(out.E, r.LitToV(rt.E, e))
+			out.E = append(out.E, r.LitToVIn(f, rt.E, e))
 		}
 		return out
 	case "map":
 		out := &V{K: "map", E: []*V{}}
 		for i := range l.Elems {
-			out.E = append(out.E, r.LitToV(rt.Key, l.Keys[i]), r.LitToV(rt.E, l.Elems[i]))
+			out.E = append(out.E, r.LitToVIn(f, rt.Key, l.Keys[i]), r.LitToVIn(f, rt.E, l.Elems[i]))
 		}
 		return out
 	}
